@@ -426,68 +426,86 @@ Fixpoint store_outputs (txid : N) (outs : list bool) (al : alloc) (vout : N)
   end.
 
 (* ------------------------------------------------------------------ index_runes *)
+(* if let Some(id) = artifact.mint() && let Some(amount) = self.mint(id)? { unallocated[id] += amount } *)
+Definition mint_phase (height : N) (st : state) (un : bmap) (art : artifact) : Res (state * bmap) :=
+  match art_mint art with
+  | None => Ok (st, un)
+  | Some r =>
+    do '(es, am) <- mint height (s_entries st) r;
+    match am with
+    | None => Ok (set_entries st es, un)
+    | Some a => do un' <- add_to r a un; Ok (set_entries st es, un')
+    end
+  end.
+
+Definition premine_of (etching : option etching) : N :=
+  match etching with Some e => odef (et_premine e) | None => 0 end.
+
+(* if let Artifact::Runestone(runestone) = artifact { premine; edicts } *)
+Definition edict_phase (outs : list bool) (art : artifact) (et : option (id * N)) (un : bmap) (al : alloc)
+  : Res (bmap * alloc) :=
+  match art with
+  | Runestone edicts etching _ _ =>
+    do un <-
+      match et with
+      | Some (r, _) => add_to r (premine_of etching) un
+      | None => Ok un
+      end;
+    apply_edicts outs (option_map fst et) un al edicts
+  | Cenotaph _ _ => Ok (un, al)
+  end.
+
+Definition create_phase (time : N) (st : state) (txid : N) (art : artifact) (et : option (id * N))
+  : Res state :=
+  match et with
+  | Some (r, rune) => create_rune_entry time st txid art r rune
+  | None => Ok st
+  end.
+
+(* if let Some(artifact) = &artifact { mint; etched; premine + edicts; create_rune_entry } *)
+Definition art_phase (height time minimum txi : N) (st : state) (tx : txm) (un : bmap) (al : alloc)
+  : Res (state * bmap * alloc) :=
+  match tx_art tx with
+  | None => Ok (st, un, al)
+  | Some art =>
+    do '(st, un) <- mint_phase height st un art;
+    do '(st, et) <- etched height txi minimum st tx art;
+    do '(un, al) <- edict_phase (tx_outs tx) art et un al;
+    do st <- create_phase time st (tx_id tx) art et;
+    Ok (st, un, al)
+  end.
+
+(* cenotaph: everything unallocated is burned; else: to the pointer / first non-OP_RETURN output /
+   burned when there is none.  Returns the allocation and the transaction's `burned` map. *)
+Definition default_phase (outs : list bool) (art : option artifact) (un : bmap) (al : alloc)
+  : Res (alloc * bmap) :=
+  match art with
+  | Some (Cenotaph _ _) => do b <- pour false un []; Ok (al, b)
+  | _ =>
+    let pointer := match art with Some (Runestone _ _ _ p) => p | _ => None end in
+    do vout <-
+      match pointer with
+      | Some p => if p <? N.of_nat (length outs) then Ok (Some p) else Panic P_POINTER
+      | None => Ok (first_non_opreturn outs 0)
+      end;
+    match vout with
+    | Some v =>
+      do m <- pour true un (nth (N.to_nat v) al []);
+      Ok (set_nth (N.to_nat v) m al, [])
+    | None => do b <- pour true un []; Ok (al, b)
+    end
+  end.
+
 Definition index_runes (height time minimum : N) (txi : N) (u : upd) (tx : txm) : Res upd :=
   let st := u_st u in
   let outs := tx_outs tx in
-  let nout := N.of_nat (length outs) in
   (* let mut unallocated = self.unallocated(tx)?; *)
   do '(bt, un) <- unallocated (tx_ins tx) (s_balances st) [];
-  let st := set_balances st bt in
-  let al : alloc := repeat [] (length outs) in
-  do '(st, un, al) <-
-    match tx_art tx with
-    | None => Ok (st, un, al)
-    | Some art =>
-      (* mint *)
-      do '(st, un) <-
-        match art_mint art with
-        | None => Ok (st, un)
-        | Some r =>
-          do '(es, am) <- mint height (s_entries st) r;
-          match am with
-          | None => Ok (set_entries st es, un)
-          | Some a => do un' <- add_to r a un; Ok (set_entries st es, un')
-          end
-        end;
-      do '(st, et) <- etched height txi minimum st tx art;
-      do '(un, al) <-
-        match art with
-        | Runestone edicts etching _ _ =>
-          do un <-
-            match et with
-            | Some (r, _) =>
-              add_to r (match etching with Some e => odef (et_premine e) | None => 0 end) un
-            | None => Ok un
-            end;
-          apply_edicts outs (option_map fst et) un al edicts
-        | Cenotaph _ _ => Ok (un, al)
-        end;
-      do st <-
-        match et with
-        | Some (r, rune) => create_rune_entry time st (tx_id tx) art r rune
-        | None => Ok st
-        end;
-      Ok (st, un, al)
-    end;
-  (* burned / default output *)
-  do '(al, burned) <-
-    match tx_art tx with
-    | Some (Cenotaph _ _) => do b <- pour false un []; Ok (al, b)
-    | _ =>
-      let pointer := match tx_art tx with Some (Runestone _ _ _ p) => p | _ => None end in
-      do vout <-
-        match pointer with
-        | Some p => if p <? nout then Ok (Some p) else Panic P_POINTER
-        | None => Ok (first_non_opreturn outs 0)
-        end;
-      match vout with
-      | Some v =>
-        do m <- pour true un (nth (N.to_nat v) al []);
-        Ok (set_nth (N.to_nat v) m al, [])
-      | None => do b <- pour true un []; Ok (al, b)
-      end
-    end;
+  do '(st, un, al) <- art_phase height time minimum txi (set_balances st bt) tx un (repeat [] (length outs));
+  do '(al, burned) <- default_phase outs (tx_art tx) un al;
+  (* update outpoint balances *)
   do '(bt, burned) <- store_outputs (tx_id tx) outs al 0 (s_balances st) burned;
+  (* increment entries with burned runes *)
   do ub <- pour false burned (u_burned u);
   Ok (mkUpd (set_balances st bt) ub).
 
